@@ -431,6 +431,47 @@ func (g *IG) reachVS(starts []int, stop func(ssa.Instruction) bool, edgeOK func(
 	return g.reachVSInit(starts, stop, edgeOK, nil)
 }
 
+// reachEdges is reachFromE that also reports the control-flow edges taken (value-sensitively). Falls back to all
+// edges between reached blocks when the state budget is exhausted.
+func (g *IG) reachEdges(starts []int, stop func(ssa.Instruction) bool, edgeOK func(term ssa.Instruction, k int) bool) ([]bool, map[[2]*ssa.BasicBlock]bool) {
+	g.recordEdges = map[[2]*ssa.BasicBlock]bool{}
+	defer func() { g.recordEdges = nil }()
+	if r, ok := g.reachVSInit(starts, stop, edgeOK, nil); ok {
+		return r, g.recordEdges
+	}
+	r := g.reachFromE(starts, stop, edgeOK)
+	edges := map[[2]*ssa.BasicBlock]bool{}
+	for i, s := range r {
+		if s {
+			b := g.instrs[i].Block()
+			for _, sc := range b.Succs {
+				edges[[2]*ssa.BasicBlock{b, sc}] = true
+			}
+		}
+	}
+	return r, edges
+}
+
+// valuesOverEdges: the values v can have given the set of edges taken: a phi contributes the operands of the taken
+// incoming edges only (recursively); anything else is itself.
+func valuesOverEdges(v ssa.Value, edges map[[2]*ssa.BasicBlock]bool, seen map[ssa.Value]bool) []ssa.Value {
+	if seen[v] {
+		return nil
+	}
+	seen[v] = true
+	phi, ok := v.(*ssa.Phi)
+	if !ok {
+		return []ssa.Value{v}
+	}
+	var out []ssa.Value
+	for i, e := range phi.Edges {
+		if edges[[2]*ssa.BasicBlock{phi.Block().Preds[i], phi.Block()}] {
+			out = append(out, valuesOverEdges(e, edges, seen)...)
+		}
+	}
+	return out
+}
+
 // reachAssuming explores from the function entry under assumptions about some values (e.g. a parameter equal to
 // a constant). Falls back to plain reachability when the budget is exhausted.
 func (g *IG) reachAssuming(init triEnv, stop func(ssa.Instruction) bool) []bool {
@@ -624,6 +665,9 @@ func (g *IG) reachVSInit(starts []int, stop func(ssa.Instruction) bool, edgeOK f
 				} else {
 					nenv[u.phi] = u.t
 				}
+			}
+			if g.recordEdges != nil {
+				g.recordEdges[[2]*ssa.BasicBlock{b, succ}] = true
 			}
 			stack = append(stack, st{m, nenv})
 		}
